@@ -311,8 +311,39 @@ impl Drv {
     }
 }
 
+/// What the program does with `Connection::closed()` before the scenario starts (part C).
+#[derive(Clone, Copy, PartialEq, Eq, Debug, Hash)]
+pub enum Pre {
+    Nothing,
+    /// both sides create a `closed()` future, poll it once and drop it (what a `select!` between
+    /// `closed()` and another future does when the other future wins)
+    ClosedDropped,
+    /// both sides hold two `closed()` futures at the same time
+    ClosedTwice,
+}
+
+impl Pre {
+    pub fn name(self) -> &'static str {
+        match self {
+            Pre::Nothing => "nothing",
+            Pre::ClosedDropped => "closed-future-dropped",
+            Pre::ClosedTwice => "closed-future-twice",
+        }
+    }
+
+    pub fn parse(s: &str) -> Pre {
+        match s {
+            "nothing" => Pre::Nothing,
+            "closed-future-dropped" => Pre::ClosedDropped,
+            "closed-future-twice" => Pre::ClosedTwice,
+            _ => vcore::machinery_error(&format!("bad pre {s}")),
+        }
+    }
+}
+
 #[derive(Clone, Debug)]
 pub struct RunSpec {
+    pub pre: Pre,
     pub row: Row,
     /// compio driver the runtime of this execution is built on
     pub driver: Drv,
@@ -326,6 +357,7 @@ impl RunSpec {
         json!({
             "row": self.row.json(),
             "driver": self.driver.name(),
+            "pre": self.pre.name(),
             "probes": self.probes,
             "close": self.close.map(|c| json!({"k": c.k, "kind": c.kind.name(), "side": c.side.name()})),
         })
@@ -341,7 +373,7 @@ impl RunSpec {
                 side: Side::parse(v["close"]["side"].as_str().unwrap_or("")),
             })
         };
-        RunSpec { row: Row::from_json(&v["row"]), driver: Drv::parse(v["driver"].as_str().unwrap_or("io-uring")), probes: v["probes"].as_bool().unwrap_or(false), close }
+        RunSpec { pre: Pre::parse(v["pre"].as_str().unwrap_or("nothing")), row: Row::from_json(&v["row"]), driver: Drv::parse(v["driver"].as_str().unwrap_or("io-uring")), probes: v["probes"].as_bool().unwrap_or(false), close }
     }
 }
 
